@@ -79,6 +79,9 @@ class Engine:
         # token alphabet: 'pua' (plane-15 private use; default) or 'ctl' (ASCII control chars that survive
         # .encode('ascii'/'latin-1') and the header-value CR/LF/NUL check; at most 22 distinct terms per path)
         self.token_alphabet = "pua"
+        # placeholder alphabet for symbolic characters crossing an f-string: 'pua16' (plane 16, utf-8 only) or
+        # 'c1' (U+0080..U+009F minus NEL: Latin-1 encodable, for non-UTF-8 charsets)
+        self.char_alphabet = "pua16"
         self._fresh = 0
         # per-path token registry for f-string rendering
         self.rendered: List[Tuple[z3.ExprRef, str]] = []
@@ -95,8 +98,22 @@ class Engine:
         self.nq += 1
         if r == z3.unknown:
             self.unknowns += 1
+            self.last_sat = False
             raise self._raise(SolverUnknown(self.solver.reason_unknown()))
+        self.last_sat = r == z3.sat
         return r == z3.sat
+
+    def witness(self) -> z3.ModelRef:
+        """Model of the last query if it was sat (the failing assertion's counterexample), else a model of
+        the path condition."""
+        if getattr(self, "last_sat", False):
+            try:
+                return self.solver.model()
+            except z3.Z3Exception:
+                pass  # a push/pop since the last sat query invalidated the model
+        if not self.check():
+            raise RuntimeError("path condition unsat at witness()")
+        return self.solver.model()
 
     def model(self) -> z3.ModelRef:
         if not self.check():
@@ -164,6 +181,7 @@ class Engine:
                 choice, has_alt = False, False
         self.solver.push()
         self.depth += 1
+        self.last_sat = False
         self.solver.add(cond if choice else z3.Not(cond))
         self.trail.append((choice, has_alt))
         return choice
@@ -314,6 +332,8 @@ class Engine:
     def _token_char(self) -> str:
         k = len(self.rendered)
         if self.token_alphabet == "ctl":
+            if self.char_alphabet == "c1" and k >= 8:
+                raise self._raise(Unsupported("more than 8 distinct rendered integers on one path (ctl tokens + c1 chars)"))
             if k >= len(self.CTL):
                 raise self._raise(Unsupported("more than 22 distinct rendered integers on one path"))
             return self.CTL[k]
@@ -321,7 +341,9 @@ class Engine:
 
     def is_token_char(self, c: str) -> bool:
         o = ord(c)
-        return 0xF0000 <= o < 0x100000 or (self.token_alphabet == "ctl" and c in self.CTL)
+        if self.token_alphabet == "ctl":
+            return c in (self.CTL[:8] if self.char_alphabet == "c1" else self.CTL)
+        return 0xF0000 <= o < 0x100000
 
     def term_of_text(self, s: str):
         """z3 Int term denoted by a rendered decimal text: a registered token run or plain digits."""
@@ -337,7 +359,19 @@ class Engine:
         for ch, t in self.chars.items():
             if z3.eq(t, term):
                 return ch
-        ch = chr(0x100000 + len(self.chars))
+        if self.char_alphabet == "c1":
+            # encoding classes differ: an ASCII char encodes identically in ascii/latin-1/utf-8, a char >= 0x80 does
+            # not.  Fork on the class and use a placeholder of the same class.
+            if self.branch(term < 0x80):
+                pool = [chr(c) for c in range(14, 28)]
+            else:
+                pool = [chr(c) for c in range(0x80, 0xA0) if c != 0x85]
+            used = [c for c in self.chars if c in pool]
+            if len(used) >= len(pool):
+                raise self._raise(Unsupported("too many symbolic characters rendered on one path (c1 alphabet)"))
+            ch = pool[len(used)]
+        else:
+            ch = chr(0x100000 + len(self.chars))
         self.chars[ch] = term
         return ch
 
@@ -600,7 +634,7 @@ def detoken(s: str, m: z3.ModelRef, e: Engine) -> str:
                 raise RuntimeError("token length disagrees with model value")
             out.append(r)
             i = j
-        elif o >= 0x100000 and c in e.chars:
+        elif c in e.chars:
             out.append(chr(m.eval(e.chars[c], True).as_long()))
             i += 1
         else:
